@@ -14,6 +14,11 @@ type Buffer[T SignalTypes] struct {
 
 // Slice the Buffer with respect to channels.
 func (b *Buffer[T]) Slice(start, end int) *Buffer[T] {
+	// validate in frames: the multiplication by the number of channels
+	// below can wrap around for out-of-range values.
+	if start < 0 || start > end || end > b.Capacity() {
+		panic(sliceBounds)
+	}
 	start = b.BufferIndex(0, start)
 	end = b.BufferIndex(0, end)
 	return &Buffer[T]{
